@@ -657,7 +657,7 @@ func TestVerifC04(t *testing.T) {
 
 	// bounds: n <= nFull with every size vector over {0,1,2}; n <= nSub with every vector over {0,1}
 	// (every subset of empty batches); n <= nFew with at most 2 empty batches.
-	nFull, nSub, nFew := 5, 5, 6
+	nFull, nSub, nFew := 5, 5, 5
 	if verifkit.Thorough() {
 		nFull, nSub, nFew = 6, 6, 7
 	}
